@@ -10,9 +10,19 @@ gates: List[asyncio.Future] = []
 
 
 def reset() -> None:
+    global alt, altcb
     calls.clear()
     cbs.clear()
     gates.clear()
+    alt = quick
+    altcb = ecb
+
+
+def rebind(which: int) -> None:
+    """The object behind vt.ctl.hmod.alt / altcb changes (as after a module reload)."""
+    global alt, altcb
+    alt = [quick, gated, boom, quick2][which % 4]
+    altcb = [ecb, accb][which % 2]
 
 
 def _rec(name: str, a: tuple, k: dict) -> None:
@@ -23,6 +33,11 @@ async def quick(*a: Any, **k: Any) -> str:
     _rec("quick", a, k)
     await asyncio.sleep(0)
     return "q"
+
+
+async def quick2(*a: Any, **k: Any) -> str:
+    _rec("quick2", a, k)
+    return "q2"
 
 
 async def gated(*a: Any, **k: Any) -> str:
@@ -66,3 +81,7 @@ def open_all() -> None:
     for g in list(gates):
         if not g.done():
             g.set_result(None)
+
+
+alt = quick
+altcb = ecb
